@@ -61,6 +61,22 @@ func (a *flAgg) flush() {
 	}
 }
 
+// flFullAtom recognises the buffer-full test on the distance between the
+// cursors: +1 for "w−r == N" (true means full), −1 for "w−r < N" (true means
+// not full; the form `>=` normalises to it; w−r cannot exceed N: RB-inv).
+func flFullAtom(as string) int {
+	if !strings.Contains(as, "r.w") || !strings.Contains(as, "r.r") {
+		return 0
+	}
+	switch {
+	case strings.Contains(as, "== 16384"):
+		return 1
+	case strings.Contains(as, "< 16384"):
+		return -1
+	}
+	return 0
+}
+
 func pathPos(p *Path, fn *ssa.Function) token.Pos {
 	for i := len(p.Events) - 1; i >= 0; i-- {
 		if p.Events[i].Pos.IsValid() {
@@ -811,8 +827,8 @@ func flReader(c *Ctx, a *flAgg) {
 							nl, haveNl = !s.Pol, true // atom: IndexByte < 0
 						case strings.HasSuffix(as, ".err == nil)") || strings.Contains(as, "r.err") && strings.HasSuffix(as, "== nil)"):
 							errNil, haveErr = s.Pol, true
-						case strings.Contains(as, "r.w") && strings.Contains(as, "r.r") && strings.Contains(as, "== 16384"):
-							full, haveFull = s.Pol, true
+						case flFullAtom(as) != 0:
+							full, haveFull = s.Pol == (flFullAtom(as) > 0), true
 						}
 					}
 					if haveNl && !nl && haveErr && errNil && haveFull && !full {
@@ -858,7 +874,7 @@ func flReader(c *Ctx, a *flAgg) {
 				fullLit := false
 				for _, lt := range p.Lits {
 					as := lt.Atom.String()
-					if lt.Pol && strings.Contains(as, "== 16384") && strings.Contains(as, "r.w") {
+					if k := flFullAtom(as); k != 0 && lt.Pol == (k > 0) {
 						fullLit = true
 					}
 				}
